@@ -1,14 +1,217 @@
 (* C11 — OSCORE: round trip, inner data hidden, responses bound, tampering detected.
-   Only statements here; every proof is [exact <lemma of Proofs/C11.v>]. *)
+   Only statements here; every proof is [exact <lemma of Proofs/C11.v>].
+   [E : aead] is any AEAD; [ideal E] = decryption succeeds exactly on honest encryptions under the same key, nonce and AAD, and a
+   ciphertext determines all four inputs (the cryptographic idealisation; satisfiable: C11_ideal_satisfiable). *)
 From Verif Require Import Lib.Py Lib.Tactics Gen.options_ext Gen.oscore_replay Gen.oscore_consts Model.C11 Proofs.C11.
+From Verif Require Proofs.C12.
 Open Scope Z_scope.
 
-(* _uncompress raises nothing but DecodeError, for every byte string (F5 is repaired) *)
+(* ---------------------------------------------------------------- round trip *)
+(* option compression: _uncompress inverts _compress on every header protect can produce *)
+Theorem C11_compress_uncompress : forall u od, unprot_ok u -> compress u = Ok od -> uncompress od = Ok u.
+Proof. exact compress_uncompress. Qed.
+Print Assumptions C11_compress_uncompress.
+
+(* inner message codec: parsing the plaintext code | options | 0xFF payload gives back code, options and payload;
+   Observe is resolved from the outer Observe as received *)
+Theorem C11_plaintext_roundtrip : forall c os pl pt pm seqno, plaintext_of c os pl = Ok pt ->
+  exists um, unprotect_finish pm pt seqno = Ok um /\ u_code um = c /\ u_opts um = del_opt OPT_OBSERVE os /\ u_payload um = pl /\
+    u_observe um =
+      (let outer_observe := observe_value (opts pm) in
+       if is_request c then match outer_observe with Some 0 => observe_value os | _ => None end
+       else match outer_observe with Some _ => Some (match seqno with None => -1 | Some n => n end) | None => observe_value os end).
+Proof. exact plaintext_roundtrip. Qed.
+Print Assumptions C11_plaintext_roundtrip.
+
+(* a request protected by cA and unprotected by the matching context cB while its Partial IV is unseen in cB's replay window:
+   original code, class-E options (inner_opts = all but Uri-Host, Uri-Port, Proxy-Uri, Proxy-Scheme) and payload come out, the
+   request identifiers agree on both sides, and the Partial IV is now marked as seen.
+   ("partial": kid_context argument at its default; the ciphertext-length side condition is a property of the AEAD's expansion) *)
+Theorem C11_request_roundtrip_partial : forall E cA cB m cA' r' pm ridA w, ideal E -> matched cA cB ->
+  is_request (code m) = true ->
+  protect E cA m None KcDefault = (cA', r', Ok (pm, ridA)) ->
+  recipient_replay_window cB = Some w -> Proofs.C12.Inv w ->
+  Verif.Model.C12.seen w (from_bytes_big (rid_piv ridA)) = false ->
+  alg_tag_bytes (c_alg cB) + 1 <= blen (payload pm) ->
+  exists cB' um ridB,
+    unprotect E cB pm None = (cB', Ok (um, ridB)) /\
+    u_code um = code m /\ u_opts um = del_opt OPT_OBSERVE (inner_opts m) /\ u_payload um = payload m /\
+    u_observe um = match observe_value (opts pm) with Some 0 => observe_value (inner_opts m) | _ => None end /\
+    rid_kid ridB = rid_kid ridA /\ rid_piv ridB = rid_piv ridA /\ can_reuse_nonce ridB = true /\
+    exists w', recipient_replay_window cB' = Some w' /\ Verif.Model.C12.seen w' (from_bytes_big (rid_piv ridA)) = true.
+Proof. exact request_roundtrip. Qed.
+Print Assumptions C11_request_roundtrip_partial.
+
+(* the first response to a request (it reuses the request's nonce; its OSCORE option is empty), unprotected by the requester with the
+   identifiers of that request: original code, options and payload.  Not proved: responses with an own Partial IV (notifications) and
+   contexts with responses_send_kid — both are exercised by the correspondence streams. *)
+Theorem C11_response_roundtrip_partial : forall E cS cC m rS rC cS' r' pm ridS, ideal E ->
+  recipient_key cC = sender_key cS -> common_iv cC = common_iv cS -> c_alg cC = c_alg cS ->
+  is_response (code m) = true -> responses_send_kid cS = false ->
+  can_reuse_nonce rS = true -> rid_kid rC = rid_kid rS -> rid_piv rC = rid_piv rS ->
+  (snd (code_style rS) = CODE_CHANGED \/ snd (code_style rS) = CODE_CONTENT) ->
+  protect E cS m (Some rS) KcDefault = (cS', r', Ok (pm, ridS)) ->
+  alg_tag_bytes (c_alg cC) + 1 <= blen (payload pm) ->
+  exists um,
+    unprotect E cC pm (Some rC) = (cC, Ok (um, rC)) /\
+    u_code um = code m /\ u_opts um = del_opt OPT_OBSERVE (opts m) /\ u_payload um = payload m /\
+    u_observe um = observe_value (opts m) /\
+    opts pm = [(OPT_OSCORE, [])] /\ can_reuse_nonce ridS = false.
+Proof. exact response_roundtrip. Qed.
+Print Assumptions C11_response_roundtrip_partial.
+
+(* ---------------------------------------------------------------- the outer message reveals nothing of the inner one *)
+(* only Uri-Host, Observe and the OSCORE option outside; Uri-Host is the message's own; fixed outer codes *)
+Theorem C11_outer_shape : forall E c m r kc c' r' pm rid',
+  protect E c m r kc = (c', r', Ok (pm, rid')) ->
+  Forall (fun o => fst o = OPT_URI_HOST \/ fst o = OPT_OBSERVE \/ fst o = OPT_OSCORE) (opts pm) /\
+  (forall o, In o (opts pm) -> fst o = OPT_URI_HOST -> is_request (code m) = true /\ get_opt OPT_URI_HOST (opts m) = Some (snd o)) /\
+  (if is_request (code m) then code pm = CODE_POST \/ code pm = CODE_FETCH
+   else exists r0, r = Some r0 /\ code pm = snd (code_style r0)).
+Proof. exact outer_shape. Qed.
+Print Assumptions C11_outer_shape.
+
+(* non-interference: two messages that agree on request/response class, Uri-Host and Observe give — from the same context state and
+   request identifiers — the same outer code, the same outer options, the same context / request-id updates, and ciphertexts
+   enc k n a p1 / enc k n a p2 under the same key, nonce and AAD: everything else of the message reaches the outside only through
+   the AEAD plaintext *)
+Theorem C11_outer_reveals_nothing : forall E c m1 m2 r kc c1 r1 pm1 rid1 c2 r2 pm2 rid2,
+  view_eq m1 m2 ->
+  protect E c m1 r kc = (c1, r1, Ok (pm1, rid1)) ->
+  protect E c m2 r kc = (c2, r2, Ok (pm2, rid2)) ->
+  c1 = c2 /\ r1 = r2 /\ rid1 = rid2 /\ code pm1 = code pm2 /\ opts pm1 = opts pm2 /\
+  exists k n a p1 p2,
+    payload pm1 = enc E k n a p1 /\ payload pm2 = enc E k n a p2 /\
+    plaintext_of (code m1) (inner_opts m1) (payload m1) = Ok p1 /\
+    plaintext_of (code m2) (inner_opts m2) (payload m2) = Ok p2.
+Proof. exact outer_reveals_nothing. Qed.
+Print Assumptions C11_outer_reveals_nothing.
+
+(* ---------------------------------------------------------------- tampering, foreign keys, foreign requests *)
+(* whatever unprotect accepts is an honest encryption under the recipient key, the nonce and the AAD the recipient computed from the
+   option and its request identifiers: a ciphertext that is not one is rejected (this clause is the AEAD hypothesis itself) *)
+Theorem C11_unprotect_accepts_only_honest : forall E c pm r c' pt seqno rid', ideal E ->
+  unprotect_verify E c pm r = Ok (c', pt, seqno, rid') ->
+  exists nonce, payload pm = enc E (recipient_key c) nonce (build_encrypt0_structure (extract_external_aad (c_alg c) rid')) pt.
+Proof. exact unprotect_accepts_only_honest. Qed.
+Print Assumptions C11_unprotect_accepts_only_honest.
+
+(* If a message carrying the ciphertext some sender produced with protect is accepted — whatever else was changed in it, by whichever
+   context, for whichever request — then the recipient key IS the sender's key (other keys: rejected), the algorithm and the request's
+   kid and Partial IV in the AAD ARE the sender's (a response verifies only with the identifiers of the request it answers; for a request
+   they are its own kid and Partial IV, so changing those in the option is rejected), and the plaintext IS the sender's message. *)
+Theorem C11_accepted_implies_unchanged : forall E cS m rS kc cS' rS' pmS ridS cR pm rR cR' pt seqno ridR, ideal E ->
+  small_alg (c_alg cS) -> small_alg (c_alg cR) -> small_rid ridS -> small_rid ridR ->
+  protect E cS m rS kc = (cS', rS', Ok (pmS, ridS)) ->
+  unprotect_verify E cR pm rR = Ok (cR', pt, seqno, ridR) ->
+  payload pm = payload pmS ->
+  recipient_key cR = sender_key cS /\
+  alg_value (c_alg cR) = alg_value (c_alg cS) /\ rid_kid ridR = rid_kid ridS /\ rid_piv ridR = rid_piv ridS /\
+  plaintext_of (code m) (inner_opts m) (payload m) = Ok pt.
+Proof. exact accepted_implies_unchanged. Qed.
+Print Assumptions C11_accepted_implies_unchanged.
+
+(* what acceptance says about the OSCORE option of the accepted message: KID and ID context, if present, are the recipient's own
+   (anything else is rejected); a request carries a Partial IV and it is the one in the returned identifiers (hence, by the theorem
+   above, the sender's); the Group flag is clear *)
+Theorem C11_accepted_option_fields : forall E c pm r c' pt seqno rid',
+  unprotect_verify E c pm r = Ok (c', pt, seqno, rid') ->
+  exists od u pivs gen nonce,
+    get_opt OPT_OSCORE (opts pm) = Some od /\ uncompress od = Ok u /\
+    eff_kid_context c u = id_context c /\ eff_kid c u = recipient_id c /\ u_group u = false /\
+    match u_piv u, r with
+    | None, Some r0 => pivs = rid_piv r0 /\ gen = rid_kid r0 /\ rid' = r0 /\ seqno = None
+    | Some p, Some r0 => pivs = p /\ gen = recipient_id c /\ rid' = r0 /\ seqno = Some (from_bytes_big p)
+    | Some p, None => pivs = p /\ gen = recipient_id c /\ rid_kid rid' = recipient_id c /\ rid_piv rid' = p /\ seqno = Some (from_bytes_big p)
+    | None, None => False
+    end /\
+    construct_nonce (common_iv c) pivs gen (alg_iv_bytes (c_alg c)) = Ok nonce /\
+    dec E (recipient_key c) nonce (build_encrypt0_structure (extract_external_aad (c_alg c) rid')) (payload pm) = Some pt.
+Proof. exact unprotect_verify_inv. Qed.
+Print Assumptions C11_accepted_option_fields.
+
+(* the nonce binds the id of whoever generated the Partial IV and the Partial IV itself (left-padded to 5 bytes): a response's own
+   Partial IV, which is not in the AAD, cannot be changed without changing the nonce *)
+Theorem C11_nonce_injective : forall civ piv id piv' id' iv n,
+  blen id <= iv - NONCE_ID_OVERHEAD -> blen id' <= iv - NONCE_ID_OVERHEAD -> blen piv <= NONCE_PIV_BYTES -> blen piv' <= NONCE_PIV_BYTES ->
+  construct_nonce civ piv id iv = Ok n -> construct_nonce civ piv' id' iv = Ok n ->
+  id = id' /\ zeros (NONCE_PIV_BYTES - blen piv) ++ piv = zeros (NONCE_PIV_BYTES - blen piv') ++ piv'.
+Proof. exact nonce_injective. Qed.
+Print Assumptions C11_nonce_injective.
+
+(* the AAD binds algorithm, request kid and request Partial IV (CBOR encoding is injective on them) *)
+Theorem C11_external_aad_injective : forall a r a' r',
+  - 2 ^ 64 <= alg_value a < 2 ^ 64 -> - 2 ^ 64 <= alg_value a' < 2 ^ 64 ->
+  blen (rid_kid r) < 2 ^ 64 -> blen (rid_piv r) < 2 ^ 64 -> blen (rid_kid r') < 2 ^ 64 -> blen (rid_piv r') < 2 ^ 64 ->
+  extract_external_aad a r = extract_external_aad a' r' ->
+  alg_value a = alg_value a' /\ rid_kid r = rid_kid r' /\ rid_piv r = rid_piv r'.
+Proof. exact external_aad_injective. Qed.
+Print Assumptions C11_external_aad_injective.
+
+(* ---------------------------------------------------------------- only protection errors *)
+(* _uncompress raises nothing but DecodeError, for every byte string *)
 Theorem C11_uncompress_total : forall od, (exists u, uncompress od = Ok u) \/ uncompress od = Raise DecodeError.
 Proof. exact uncompress_total. Qed.
 Print Assumptions C11_uncompress_total.
 
-(* non-vacuity of the AEAD hypothesis: the symbolic scheme used in the correspondence run is ideal *)
+(* For every message (any bytes in option and payload), every admissible context and the calls the stack makes (requests with outer code
+   POST/FETCH, responses with the identifiers of a request), everything up to and including decryption fails with NotAProtectedMessage,
+   DecodeError, ProtectionInvalid or ReplayError only (the last three are ProtectionInvalid subclasses) *)
+Theorem C11_unprotect_error_class : forall E c pm r e,
+  admissible_ctx c -> call_ok c pm r -> Forall (fun o => bytes_ok (snd o) = true) (opts pm) ->
+  unprotect_verify E c pm r = Raise e ->
+  e = NotAProtectedMessage \/ e = DecodeError \/ e = ProtectionInvalid \/ e = ReplayError.
+Proof. exact unprotect_verify_error_class. Qed.
+Print Assumptions C11_unprotect_error_class.
+
+(* after decryption succeeded — i.e. for plaintexts a key holder encrypted — only a malformed plaintext makes unprotect fail *)
+Theorem C11_unprotect_finish_error_class : forall pm pt seqno e,
+  unprotect_finish pm pt seqno = Raise e -> e = IndexError \/ e = UnparsableMessage.
+Proof. exact unprotect_finish_error_class. Qed.
+Print Assumptions C11_unprotect_finish_error_class.
+
+(* ---------------------------------------------------------------- non-vacuity *)
+(* the AEAD hypothesis is satisfiable: the symbolic scheme used in the correspondence run is ideal *)
 Example C11_ideal_satisfiable : ideal sym_aead.
 Proof. exact sym_ideal. Qed.
 Print Assumptions C11_ideal_satisfiable.
+
+Definition ex_alg : alg := {| alg_value := 10; alg_key_bytes := 16; alg_tag_bytes := 8; alg_iv_bytes := 13 |}.
+Definition ex_A : ctx := {| c_alg := ex_alg; sender_id := [1]; recipient_id := [2; 3]; id_context := Some [55; 203];
+  sender_key := repeat 17 16; recipient_key := repeat 34 16; common_iv := [70; 34; 212; 221; 109; 148; 65; 104; 238; 251; 84; 152; 124];
+  sender_sequence_number := 65535; recipient_replay_window := Some {| rw_size := 32; rw_index := 0; rw_bitfield := 0 |}; responses_send_kid := false |}.
+Definition ex_B : ctx := {| c_alg := ex_alg; sender_id := [2; 3]; recipient_id := [1]; id_context := Some [55; 203];
+  sender_key := repeat 34 16; recipient_key := repeat 17 16; common_iv := [70; 34; 212; 221; 109; 148; 65; 104; 238; 251; 84; 152; 124];
+  sender_sequence_number := 7; recipient_replay_window := Some {| rw_size := 32; rw_index := 65530; rw_bitfield := 3 |}; responses_send_kid := false |}.
+Definition ex_req : msg := {| code := 1; opts := [(3, [104; 111; 115; 116]); (6, []); (11, [116; 118]); (12, [40])]; payload := [1; 2; 3] |}.
+(* the hypotheses of the round-trip, error-class and tamper theorems hold for a concrete pair of contexts and a concrete request;
+   the computed round trip gives back code 1, Uri-Path and Content-Format (Uri-Host stays outside), Observe 0 and the payload *)
+Example C11_hypotheses_satisfiable :
+  matched ex_A ex_B /\ admissible_ctx ex_B /\ small_alg ex_alg /\ is_request (code ex_req) = true /\
+  exists cA' pm ridA cB' um ridB,
+    protect sym_aead ex_A ex_req None KcDefault = (cA', None, Ok (pm, ridA)) /\
+    code pm = CODE_FETCH /\ map fst (opts pm) = [OPT_URI_HOST; OPT_OBSERVE; OPT_OSCORE] /\ get_opt OPT_OSCORE (opts pm) = Some [26; 255; 255; 2; 55; 203; 1] /\
+    small_rid ridA /\ call_ok ex_B pm None /\ alg_tag_bytes ex_alg + 1 <= blen (payload pm) /\
+    unprotect sym_aead ex_B pm None = (cB', Ok (um, ridB)) /\
+    um = {| u_code := 1; u_observe := Some 0; u_opts := [(11, [116; 118]); (12, [40])]; u_payload := [1; 2; 3] |} /\
+    (* a flipped ciphertext bit, a changed Partial IV, a foreign key: rejected *)
+    snd (unprotect sym_aead ex_B (apply_tamper (TPayBit 40 3) pm) None) = Raise ProtectionInvalid /\
+    snd (unprotect sym_aead ex_B (apply_tamper (TOptBit 2 0) pm) None) = Raise ProtectionInvalid /\
+    snd (unprotect sym_aead ex_A pm None) = Raise ProtectionInvalid /\
+    (* Group flag set by a bit flip: DecodeError *)
+    snd (unprotect sym_aead ex_B (apply_tamper (TOptBit 0 5) pm) None) = Raise DecodeError.
+Proof.
+  split. { unfold matched. repeat split; reflexivity. }
+  split. { unfold admissible_ctx, Proofs.C12.Inv. cbn. repeat split; lia. }
+  split. { unfold small_alg. cbn. lia. }
+  split; [reflexivity|].
+  do 6 eexists.
+  split. { vm_compute. reflexivity. }
+  split; [reflexivity|]. split; [reflexivity|]. split; [vm_compute; reflexivity|].
+  split. { unfold small_rid. cbn. lia. }
+  split. { right. reflexivity. }
+  split. { vm_compute. discriminate. }
+  split. { vm_compute. reflexivity. }
+  split; [reflexivity|].
+  repeat split; vm_compute; reflexivity.
+Qed.
